@@ -29,101 +29,7 @@ func runC05(c *Ctx) {
 	c32WalKeysAs(c, "C05.KEYS")
 	c32ReplayAs(c, "C05.ROUTE")
 
-	// ---- DURABLE
-	if fn := c.MustFunc("C05.DURABLE", "(*internal/wal.Recovery).RecoverWithOptions"); fn != nil {
-		n := 0
-		for _, call := range findCalls(fn, false, "os.Remove") {
-			n++
-			at := call.(ssa.Instruction)
-			construct := fmt.Sprintf("RecoverWithOptions|remove#%d", n)
-			// empty file?
-			empty := false
-			for _, f := range factsAt(at) {
-				if f.Kind == factCmp && f.Op == token.EQL {
-					if z, ok := constInt(f.Y); ok && z == 0 {
-						if cl, ok := f.X.(*ssa.Call); ok && cl.Call.Value.Name() == "len" {
-							empty = true
-						}
-					}
-				}
-			}
-			if empty {
-				c.Triv("C05.DURABLE", construct, call.Pos(), "the file held no entries")
-				continue
-			}
-			// all entries applied
-			allOK := false
-			for _, f := range factsAt(at) {
-				if f.Kind == factTrue {
-					if phi, ok := f.Val.(*ssa.Phi); ok && strings.Contains(phi.Comment, "allEntriesSucceeded") {
-						allOK = true
-					}
-				}
-			}
-			// durability hook on every path
-			okF := func(fs []fact) bool {
-				for _, f := range fs {
-					// hook absent
-					if f.Kind == factNil && fieldSources(f.Val, 3)["RecoveryOptions.BeforeDelete"] {
-						return true
-					}
-					// hook returned nil
-					if f.Kind == factNil {
-						if cl, ok := f.Val.(*ssa.Call); ok && fieldSources(cl.Call.Value, 3)["RecoveryOptions.BeforeDelete"] {
-							return true
-						}
-					}
-				}
-				return false
-			}
-			durable := okF(factsAt(at)) || holdsOnAllPaths(at.Block(), okF, 10, nil)
-			var miss []string
-			if !allOK {
-				miss = append(miss, "the file is deleted although not every entry was applied")
-			}
-			if !durable {
-				miss = append(miss, "the file is deleted without the replayed rows having been made durable (BeforeDelete == nil result): they exist only in the in-memory buffer, and a crash before the next flush loses them")
-			}
-			if len(miss) == 0 {
-				c.OK("C05.DURABLE", construct, call.Pos(), "removed only after every entry was applied and the durability hook succeeded")
-			} else {
-				c.Bad("C05.DURABLE", construct, call.Pos(), "%s", strings.Join(miss, "; "))
-			}
-		}
-		if n == 0 {
-			c.Unk("C05.DURABLE", "RecoverWithOptions|remove", fn.Pos(), "no os.Remove found")
-		}
-		// an entry that matches no dispatch branch must not count as applied
-		c05AllEntries(c, fn)
-		// the "all entries applied" flag only ever goes from true to false
-		nPhi, badEdge := 0, ""
-		for _, in := range instrs(fn, false) {
-			phi, ok := in.(*ssa.Phi)
-			if !ok || !strings.Contains(phi.Comment, "allEntriesSucceeded") {
-				continue
-			}
-			nPhi++
-			for i, e := range phi.Edges {
-				switch x := e.(type) {
-				case *ssa.Const:
-					if x.Value != nil && x.Value.String() == "true" && blockInCycle(phi.Block().Preds[i]) && edgeStaysInLoop(phi.Block().Preds[i], c19LoopHeaderOf(phi.Block())) && strings.Contains(phi.Block().Preds[i].Comment, "body") && false {
-						badEdge = "true assigned inside the loop"
-					}
-				case *ssa.Phi:
-					if !strings.Contains(x.Comment, "allEntriesSucceeded") {
-						badEdge = "merged from another variable"
-					}
-				default:
-					badEdge = fmt.Sprintf("assigned a computed value (%T) at L%d", e, c.P.Line(e.Pos()))
-				}
-			}
-		}
-		if nPhi == 0 {
-			c.Unk("C05.DURABLE", "RecoverWithOptions|applied-flag-monotone", fn.Pos(), "no allEntriesSucceeded flag found")
-		} else {
-			c.Check(badEdge == "", "C05.DURABLE", "RecoverWithOptions|applied-flag-monotone", fn.Pos(), "the flag is only ever cleared", "the per-file 'all entries applied' flag is "+badEdge+": a later successful entry can set it back to true after an earlier one failed, and the file — with the failed entry's only copy — is deleted")
-		}
-	}
+	c05DurableAs(c, "C05.DURABLE")
 
 	// ---- ENCODE
 	c.Rule("C05.ENCODE", "WHO: the WAL's row serialisation does not enable the msgpack encoder's float compaction (an integral float64 would come back as an integer and change the column's type on replay)")
@@ -308,12 +214,45 @@ func runC05(c *Ctx) {
 	}
 }
 
+// c05FlagValuesFrom walks forward from the edge prev->cur and returns, for every path, the value the
+// first phi of the named variable receives from the block the path arrives through.
+func c05FlagValuesFrom(prev, cur *ssa.BasicBlock, name string) []ssa.Value {
+	var out []ssa.Value
+	seen := map[[2]*ssa.BasicBlock]bool{}
+	var walk func(prev, cur *ssa.BasicBlock, d int)
+	walk = func(prev, cur *ssa.BasicBlock, d int) {
+		if d > 40 || seen[[2]*ssa.BasicBlock{prev, cur}] {
+			return
+		}
+		seen[[2]*ssa.BasicBlock{prev, cur}] = true
+		for _, in := range cur.Instrs {
+			phi, ok := in.(*ssa.Phi)
+			if !ok {
+				break
+			}
+			if strings.Contains(phi.Comment, name) {
+				for i, pb := range cur.Preds {
+					if pb == prev {
+						out = append(out, phi.Edges[i])
+					}
+				}
+				return
+			}
+		}
+		for _, s := range cur.Succs {
+			walk(cur, s, d+1)
+		}
+	}
+	walk(prev, cur, 0)
+	return out
+}
+
 // c05AllEntries: inside the entry loop of RecoverWithOptions, an entry for which neither dispatch branch
 // runs must not leave the file looking fully applied. The branches are guarded by entry.ColumnarData != nil
 // && opts.ColumnarCallback != nil, else entry.Records != nil; the fall-through (neither) path is acceptable
 // only when C05.WIRE guarantees both callbacks, so it is reported as covered-by-WIRE.
-func c05AllEntries(c *Ctx, fn *ssa.Function) {
-	c.Triv("C05.DURABLE", "RecoverWithOptions|undispatched-entry", fn.Pos(), "an entry with columnar data is skipped when no ColumnarCallback is set; C05.WIRE requires every recovery to set it")
+func c05AllEntries(c *Ctx, fn *ssa.Function, rule string) {
+	c.Triv(rule, "RecoverWithOptions|undispatched-entry", fn.Pos(), "an entry with columnar data is skipped when no ColumnarCallback is set; C05.WIRE requires every recovery to set it")
 }
 
 // c05DetectFlag follows fn to the call of normalizeTimestampColumnsUnit and returns the constant flag passed.
@@ -427,4 +366,150 @@ func c05SliceLow(fn *ssa.Function, k int64) bool {
 		}
 	}
 	return false
+}
+
+// c05DurableAs: the WAL-file deletion rules of RecoverWithOptions, reported under the given rule id
+// (C05.DURABLE; C07 reuses them because its retry path is this same replay).
+func c05DurableAs(c *Ctx, rule string) {
+	// ---- DURABLE
+	if fn := c.MustFunc(rule, "(*internal/wal.Recovery).RecoverWithOptions"); fn != nil {
+		n := 0
+		for _, call := range findCalls(fn, false, "os.Remove") {
+			n++
+			at := call.(ssa.Instruction)
+			construct := fmt.Sprintf("RecoverWithOptions|remove#%d", n)
+			// empty file?
+			empty := false
+			for _, f := range factsAt(at) {
+				if f.Kind == factCmp && f.Op == token.EQL {
+					if z, ok := constInt(f.Y); ok && z == 0 {
+						if cl, ok := f.X.(*ssa.Call); ok && cl.Call.Value.Name() == "len" {
+							empty = true
+						}
+					}
+				}
+			}
+			if empty {
+				c.Triv(rule, construct, call.Pos(), "the file held no entries")
+				continue
+			}
+			// all entries applied
+			allOK := false
+			for _, f := range factsAt(at) {
+				if f.Kind == factTrue {
+					if phi, ok := f.Val.(*ssa.Phi); ok && strings.Contains(phi.Comment, "allEntriesSucceeded") {
+						allOK = true
+					}
+				}
+			}
+			// durability hook on every path
+			okF := func(fs []fact) bool {
+				for _, f := range fs {
+					// hook absent
+					if f.Kind == factNil && fieldSources(f.Val, 3)["RecoveryOptions.BeforeDelete"] {
+						return true
+					}
+					// hook returned nil
+					if f.Kind == factNil {
+						if cl, ok := f.Val.(*ssa.Call); ok && fieldSources(cl.Call.Value, 3)["RecoveryOptions.BeforeDelete"] {
+							return true
+						}
+					}
+				}
+				return false
+			}
+			durable := okF(factsAt(at)) || holdsOnAllPaths(at.Block(), okF, 10, nil)
+			var miss []string
+			if !allOK {
+				miss = append(miss, "the file is deleted although not every entry was applied")
+			}
+			if !durable {
+				miss = append(miss, "the file is deleted without the replayed rows having been made durable (BeforeDelete == nil result): they exist only in the in-memory buffer, and a crash before the next flush loses them")
+			}
+			if len(miss) == 0 {
+				c.OK(rule, construct, call.Pos(), "removed only after every entry was applied and the durability hook succeeded")
+			} else {
+				c.Bad(rule, construct, call.Pos(), "%s", strings.Join(miss, "; "))
+			}
+		}
+		if n == 0 {
+			c.Unk(rule, "RecoverWithOptions|remove", fn.Pos(), "no os.Remove found")
+		}
+		// an entry that matches no dispatch branch must not count as applied
+		c05AllEntries(c, fn, rule)
+		// the "all entries applied" flag only ever goes from true to false
+		nPhi, badEdge := 0, ""
+		for _, in := range instrs(fn, false) {
+			phi, ok := in.(*ssa.Phi)
+			if !ok || !strings.Contains(phi.Comment, "allEntriesSucceeded") {
+				continue
+			}
+			nPhi++
+			for i, e := range phi.Edges {
+				switch x := e.(type) {
+				case *ssa.Const:
+					if x.Value != nil && x.Value.String() == "true" && blockInCycle(phi.Block().Preds[i]) && edgeStaysInLoop(phi.Block().Preds[i], c19LoopHeaderOf(phi.Block())) && strings.Contains(phi.Block().Preds[i].Comment, "body") && false {
+						badEdge = "true assigned inside the loop"
+					}
+				case *ssa.Phi:
+					if !strings.Contains(x.Comment, "allEntriesSucceeded") {
+						badEdge = "merged from another variable"
+					}
+				default:
+					badEdge = fmt.Sprintf("assigned a computed value (%T) at L%d", e, c.P.Line(e.Pos()))
+				}
+			}
+		}
+		// every failed callback clears the flag: on the error edge of each callback call, the next
+		// merge of the flag receives the constant false
+		nCb := 0
+		for _, call := range callsIn(fn, false) {
+			cc := call.Common()
+			if cc.IsInvoke() || cc.StaticCallee() != nil {
+				continue
+			}
+			// dynamic call of a function value: opts.ColumnarCallback(...) or callback(...)
+			isCb := isParam(fn, "callback")(resolveParam(cc.Value)) || fieldSources(cc.Value, 3)["RecoveryOptions.ColumnarCallback"]
+			if !isCb {
+				continue
+			}
+			ev := callValue(call)
+			if ev == nil || !isErrorType(ev.Type()) {
+				continue
+			}
+			nCb++
+			cleared := true
+			found := false
+			for _, b := range fn.Blocks {
+				for _, sb := range b.Succs {
+					isFail := false
+					for _, f := range blockEdgeFactsDirect(b, sb) {
+						if f.Kind == factNotNil && f.Val == ev {
+							isFail = true
+						}
+					}
+					if !isFail {
+						continue
+					}
+					found = true
+					for _, v := range c05FlagValuesFrom(b, sb, "allEntriesSucceeded") {
+						k, isK := v.(*ssa.Const)
+						if !isK || k.Value == nil || k.Value.String() != "false" {
+							cleared = false
+						}
+					}
+				}
+			}
+			c.Check(found && cleared, rule, fmt.Sprintf("RecoverWithOptions|failed-callback-clears-flag#%d", nCb), call.Pos(), "a failed replay callback leaves the file marked as not fully applied", "a replay callback can fail without the file being marked as not fully applied: the file, holding the only copy of that entry, is then deleted")
+		}
+		if nCb < 3 {
+			c.Unk(rule, "RecoverWithOptions|callbacks", fn.Pos(), "found %d replay callback calls, expected the columnar one and two row-format ones", nCb)
+		}
+		if nPhi == 0 {
+			c.Unk(rule, "RecoverWithOptions|applied-flag-monotone", fn.Pos(), "no allEntriesSucceeded flag found")
+		} else {
+			c.Check(badEdge == "", rule, "RecoverWithOptions|applied-flag-monotone", fn.Pos(), "the flag is only ever cleared", "the per-file 'all entries applied' flag is "+badEdge+": a later successful entry can set it back to true after an earlier one failed, and the file — with the failed entry's only copy — is deleted")
+		}
+	}
+
 }
